@@ -263,7 +263,10 @@ def oracle(sc, obs):
             if state in ("H", "R", "RH", "RH'"):
                 slow_connect_hook = any(p["hook"] in ("server_connect", "server_connected") and p.get("latency", 0) > 0
                                         for p in sc.get("policy", []))
-                v.append({"class": "no_outcome", "key": {"state": state, "async_server_connect_hook": slow_connect_hook},
+                v.append({"class": "no_outcome", "key": {"state": state, "async_server_connect_hook": slow_connect_hook,
+                                                          "eager": bool(sc.get("eager")),
+                                                          "write_fault": bool(w.net.faults_fired.get("drain_error")
+                                                                              or w.net.faults_fired.get("write_eof_error"))},
                           "msg": f"flow {fid[:8]} ended in state {state} without response/error after its client "
                                  f"connection was closed; hooks={seen}"})
             elif f is not None and f.live:
@@ -275,7 +278,10 @@ def oracle(sc, obs):
             if not c.handler_done and (c.peer_eof or c.peer_reset):
                 pend = obs.pending_hooks
                 v.append({"class": "handler_stuck",
-                          "key": {"pending_hooks": sorted(set(pend))},
+                          "key": {"pending_hooks": sorted(set(pend)),
+                                  "async_server_connect_hook": any(
+                                      p["hook"] in ("server_connect", "server_connected") and p.get("latency", 0) > 0
+                                      for p in sc.get("policy", []))},
                           "msg": f"client {c.id} closed its side at quiescence but its handler never finished; "
                                  f"pending hooks={pend}"})
     cv = H.crash_violations(sc, obs)
